@@ -2371,16 +2371,28 @@ impl IdmServerProxyWriteTransaction<'_> {
 
         #[cfg(feature = "verif-hooks")]
         crate::verif::pause("idm_commit.start");
-        // Commit everything.
-        self.applications.commit();
-        self.oauth2rs.commit();
-        self.cred_update_sessions.commit();
-        self.oauth2_client_providers.commit();
+        let IdmServerProxyWriteTransaction {
+            qs_write,
+            applications,
+            oauth2rs,
+            cred_update_sessions,
+            oauth2_client_providers,
+            ..
+        } = self;
+
+        // The query server (and with it the database) commits first. If that fails, none of
+        // the IDM layer's in-memory state may have been published.
+        qs_write.commit()?;
 
         #[cfg(feature = "verif-hooks")]
         crate::verif::pause("idm_commit.after_idm");
+        // Commit everything.
+        applications.commit();
+        oauth2rs.commit();
+        cred_update_sessions.commit();
+        oauth2_client_providers.commit();
         trace!("cred_update_session.commit");
-        self.qs_write.commit()
+        Ok(())
     }
 }
 
